@@ -1,5 +1,6 @@
 import Ivg.Lemmas.Codec
-import Ivg.Gen.Tie
+import Ivg.Gen.Tie.DrawOps
+import Ivg.Gen.Tie.Magic
 import Ivg.Obligations
 /-!
 # C08 — number encodings: lossless where possible, bounded error, minimal
